@@ -6,6 +6,14 @@
 # A patch's property is taken from its file name (mNNx-… → CNN) or from seeded/<id>/meta.json.
 set -u
 cd "$(dirname "$0")" || exit 2
+ORIG="$(pwd)"
+if [ "${IN_PLACE:-0}" != "1" ] && [ "${NO_COPY:-0}" != "1" ]; then
+    # work on a private copy of the machinery, so that it can be edited while this runs
+    WORK=/tmp/verif-selftest-$$
+    mkdir -p "$WORK" && rsync -a --exclude 'target*' --exclude scratch --exclude replays --exclude evidence --exclude .git "$ORIG"/ "$WORK"/ || exit 2
+    cd "$WORK" || exit 2
+    mkdir -p sim/scratch
+fi
 # By default the patches are applied to a scratch worktree of /repo (removed afterwards, with its
 # build output) and the checks are pointed at it with VERIF_REPO; IN_PLACE=1 applies them to
 # /repo itself instead (git -C /repo apply ...; checks; git -C /repo checkout -- .).
@@ -18,7 +26,7 @@ else
     git -C /repo worktree add -q --detach "$REPO" HEAD || exit 2
     VERIF_REPO="$REPO"; export VERIF_REPO
     tag=$(printf '%s' "$REPO" | cksum | cut -d' ' -f1)
-    trap 'git -C /repo worktree remove --force "$REPO" 2>/dev/null; rm -rf "sim/target-alt-$tag" "sim/target-asan-alt-$tag"' EXIT INT TERM
+    trap 'git -C /repo worktree remove --force "$REPO" 2>/dev/null; rm -rf "sim/target-alt-$tag" "sim/target-asan-alt-$tag"; [ -n "${WORK:-}" ] && rm -rf "$WORK"' EXIT INT TERM
 fi
 # evidence written while a mutant is applied must not replace the evidence of the real tree
 VERIF_EVIDENCE_DIR="$(pwd)/sim/scratch/evidence-mutants"; export VERIF_EVIDENCE_DIR; mkdir -p "$VERIF_EVIDENCE_DIR"
@@ -31,7 +39,7 @@ else
     done
 fi
 ok=0; missed=0; bad=0
-RES="$(pwd)/sim/scratch/mutant-results.tsv"; : > "$RES"
+RES="$ORIG/sim/scratch/mutant-results.tsv"; : > "$RES"
 for p in $patches; do
     case "$p" in
         seeded/*) prop=$(python3 -c "import json,sys;print(json.load(open('$(dirname "$p")/meta.json'))['property'])") ;;
